@@ -164,7 +164,7 @@ fn ss_client_cases(s: &mut Session, cr: &mut Crafter, rng: &mut Rng, cipher: &'s
     s.mark_nontrivial();
 }
 
-fn vm_cases(s: &mut Session, cr: &mut Crafter, rng: &mut Rng) {
+pub fn vm_cases(s: &mut Session, cr: &mut Crafter, rng: &mut Rng) {
     s.begin_case("vmess-server:window");
     let uuid = random_uuid(rng);
     let addr = random_addr(rng);
